@@ -29,10 +29,10 @@ func main() {
 		ID:    "C19",
 		Level: "exploration",
 		Rule: "(a) sessions: one marbl.Stream, K=1..16 goroutines each logging 1..4 PRNG requests/responses (header multisets with repeats, empty/long/binary values, " +
-			"API flag, bodies 0..1 MiB from an instrumented reader that returns short reads, (0,nil), (n,EOF) or a mid-body error) and reading the wrapped body with PRNG " +
-			"buffer sizes 0 B..64 KiB, stopping at EOF, early, or after extra reads past EOF; writers: plain, slow, marbl.Handler with a websocket subscriber; plus exchanges " +
+			"API flag, bodies 0..1 MiB from an instrumented reader that returns short reads, (0,nil), (n>0,EOF), and non-EOF errors as (0,err) or (n>0,err), transient or persistent) and reading the wrapped body with PRNG " +
+			"buffer sizes 0 B..64 KiB, stopping at EOF/error, early, or after extra reads past EOF or past an error; writers: plain, slow, marbl.Handler with a websocket subscriber; plus exchanges " +
 			"through marbl.Modifier in a martian.Proxy. The emitted bytes are parsed by an independent parser and by marbl.Reader (must agree frame for frame) and compared per " +
-			"(id,type) with the spec and with what the consumer read. A class is (driver, writer, K bucket, message type, body-size bucket, data-frame-count bucket, how the read ended). " +
+			"(id,type) with the spec and with what the consumer read. A class is (driver, writer, K bucket, message type, body-size bucket, data-frame-count bucket, how the read ended), plus (driver, type, set of Read outcome kinds seen through the wrapper). " +
 			"(b) reader inputs: random bytes, valid streams truncated at every kind of offset, bit-flipped, and with length fields replaced by {0,1,2^31-1,2^31,2^32-1,+-1,random} " +
 			"incl. name/value length pairs whose 32-bit sum wraps; a class is (generator, outcome: frames returned x stop reason). " +
 			"EXHAUSTIVE sub-space: every truncation offset of every valid stream generated in the 'trunc' batch, and every (nl, vl) pair of the wrap table " +
